@@ -699,10 +699,24 @@ func (in *inner) exceptional(proof any, vk any, pub []*big.Int) string {
 	return ""
 }
 
-// nearModulus: scalars r-k for small k never return from the emulated GLV half-GCD hint (known finding F27).
-func nearModulus(x, q *big.Int) bool {
-	d := new(big.Int).Sub(q, x)
-	return d.BitLen() <= 20
+// slowScalar: Groth16 public inputs are the scalars of the in-circuit MSM; on the emulated GLV curves
+// the Eisenstein half-GCD hint needs an astronomical number of iterations (known finding F27) for
+// scalars that are a small negative number or a small fraction modulo r: r-k, (r-1)/2-k, 1/3, 5/7, ...
+// (measured: minutes to never, where a generic or a small positive scalar takes 0.2 s). Such a scalar
+// x has m*x = +-small (mod r) for some small m; small positive x themselves are fine.
+func slowScalar(x, q *big.Int) bool {
+	if x.BitLen() <= 64 {
+		return false
+	}
+	y := new(big.Int)
+	d := new(big.Int)
+	for m := int64(1); m <= 128; m++ {
+		y.Mul(x, big.NewInt(m)).Mod(y, q)
+		if y.BitLen() <= 64 || d.Sub(q, y).BitLen() <= 64 {
+			return true
+		}
+	}
+	return false
 }
 
 const outerTimeout = 20 * time.Minute
@@ -809,8 +823,8 @@ func (in *inner) evalTriple(t Triple, cc *compiledCache) (res tripleResult) {
 	pub := in.editPub(st.pub, t)
 	if c.Scheme == "groth16" && in.p.Emulated() {
 		for _, x := range pub {
-			if nearModulus(x, in.f.Q) {
-				return tripleResult{skip: "public input r-k, k small, on an emulated GLV curve: half-GCD hint does not terminate (known finding F27)"}
+			if slowScalar(x, in.f.Q) {
+				return tripleResult{skip: "public input that is a small negative number or small fraction mod r on an emulated GLV curve: half-GCD hint does not terminate in reasonable time (known finding F27)"}
 			}
 		}
 	}
@@ -1250,7 +1264,7 @@ func genCase(cfg genCfg) *rapid.Generator[Case] {
 			}
 		}
 		// redraw (bounded) until statement 1 satisfies the circuit and, for Groth16 on an emulated
-		// pairing, no public value is r-k with k small (known finding F27: the run would not return)
+		// pairing, no public value is a small negative number / small fraction mod r (known finding F27: the run would not return)
 		for try := 0; try < 16; try++ {
 			c.Prog = zk.GenProvable(zk.ProvableCfg{Q: f.Q, MaxOps: 6, MaxCommits: maxC}).Draw(t, "prog")
 			r := prog.Eval(c.Prog, f.Q)
@@ -1260,7 +1274,7 @@ func genCase(cfg genCfg) *rapid.Generator[Case] {
 			bad := wantCommit && zk.NbCommits(c.Prog) == 0
 			if c.Scheme == "groth16" && p.Emulated() {
 				for _, x := range pubValues(c.Prog, f.Q, r.Outs) {
-					bad = bad || nearModulus(x, f.Q)
+					bad = bad || slowScalar(x, f.Q)
 				}
 			}
 			if !bad {
@@ -1339,7 +1353,7 @@ func setup(rec *ev.Recorder) {
 	rec.Assume("native verdicts are computed, never assumed: a perturbed triple that the native verifier still accepts is a completeness case")
 	rec.Assume("without WithCompleteArithmetic the in-circuit verifiers are only required to accept honest triples whose MSM scalars are non-zero and whose MSM points are distinct up to sign and not at infinity (doc comments of std/algebra MultiScalarMul / ScalarMul and of recursion/plonk WithCompleteArithmetic)")
 	rec.Assume("without WithSubgroupCheck a G1 proof element moved by a cofactor-torsion point may be accepted in-circuit (the pairing cannot see it); the native verifier always checks subgroup membership")
-	rec.Assume("Groth16 public inputs r-k (k < 2^20) on the emulated GLV curves are not generated: the half-GCD hint does not terminate (known finding F27)")
+	rec.Assume("Groth16 public inputs x with m*x = +-small (mod r) for some m <= 128 (r-k, (r-1)/2-k, 1/3, 5/7, ...) on the emulated GLV curves are not generated: the Eisenstein half-GCD hint does not terminate in reasonable time (known finding F27)")
 }
 
 func TestTwoChains(t *testing.T) {
